@@ -31,7 +31,7 @@ THEOREMS_TV = ["C02_tv_hierarchy", "C02_tv_xsd_types", "C02_tv_cast_sound", "C02
                "C02_tv_cast_errors", "C02_tv_bounds", "C02_tv_holder_ctor", "C02_tv_holder_accept_wf",
                "C02_tv_holder_reject_unchanged", "C02_tv_holder_history", "C02_tv_range_ctor", "C02_tv_range_accept_wf",
                "C02_tv_range_reject_unchanged", "C02_tv_range_history", "C02_tv_setters_property",
-               "C02_tv_setters_extension", "C02_tv_setters_range", "C02_tv_example"]
+               "C02_tv_setters_extension", "C02_tv_setters_range", "C02_tv_list_item_retype", "C02_tv_example"]
 THEOREMS_4 = ["C02_sml_accept_wf", "C02_sml_reject", "C02_sml_history", "C02_sml_example",
               "C02_sml_step", "C02_sml_ops_history", "C02_sml_ops_example"]
 
@@ -729,7 +729,7 @@ def replay(path):
     if k in ("adm", "bee", "lss"):
         import c02_small
         return c02_small.replay_case(rp)
-    if k in ("tvholder", "tvrange"):
+    if k in ("tvholder", "tvrange", "tvitem"):
         import c02_typed
         return c02_typed.replay_case(rp)
     if k == "ref":
